@@ -503,7 +503,9 @@ Inductive op :=
 | OPFromV (shape : list Z) (n : Z)     (* pipe_from(&view(shape), n): the argument view is consumed *)
 | OPushB (size : Z) | OPushF (size : Z)         (* push_back/front(buf, size), fresh buffer (owning only) *)
 | OPushBA (bytes : Z) | OPushFA (bytes : Z)     (* push_back/front(bytes): allocating (owning only) *)
-| OPopF | OPopB | OClear.                       (* owning only *)
+| OPopF | OPopB | OClear                        (* owning only *)
+| OXFO (n slack rf2 : Z)               (* extract_front(n, iovector* dst): dst = fresh new_iovector(rf2 + iovcnt() + slack, rf2) (owning only) *)
+| OXBO (n slack rf2 : Z).              (* extract_back(n, iovector* dst) *)
 
 (* what an operation returns: value, pointer (continuous extraction), memory regions whose
    content is part of the observable result (destination buffers / the returned pointer) *)
@@ -714,6 +716,38 @@ Definition step (m : machine) (o : op) : option (machine * obs) :=
   | OPopF => if m_own m then let '(iv', r) := o_pop_front iv in Some (set_main m st iv', mkObs r None []) else ret_only m NA
   | OPopB => if m_own m then let '(iv', r) := o_pop_back iv in Some (set_main m st iv', mkObs r None []) else ret_only m NA
   | OClear => if m_own m then Some (set_main m st (o_clear iv), mkObs 0 None []) else ret_only m NA
+  (* iovector.h:503-517: iov->resize(iovcnt()) (unchecked: assert off), vi = iov->view(), va.extract_front(bytes, &vi),
+     iov_begin = iov_end - va.iovcnt, if (ret >= 0) iov->update(vi).  The destination's elements are reported as the out view.
+     Slots rf2 .. rf2+|written| of the destination array are written: beyond cap2 that is out of bounds. *)
+  | OXFO n slack rf2 =>
+      if m_own m then
+        if n =? 0 then Some (set_all m st iv [], mkObs 0 None [])           (* if (!bytes) return 0 *)
+        else
+          let nn := zlen v in
+          let cap2 := rf2 + nn + slack in
+          match do_extract_front (cb_view_front nn) v n [] with
+          | XOob => None
+          | XNeg v' a => if cap2 <? rf2 + zlen a then None
+                         else Some (set_all m st (upd_front iv v') (nulls nn), mkObs (-1) None [])
+          | XDone v' rem a => if cap2 <? rf2 + zlen a then None
+                              else Some (set_all m st (upd_front iv v') a, mkObs (n - rem) None [])
+          end
+      else ret_only m NA
+  (* iovector.h:597-611: the same with extract_back; the out entries are written from slot rf2+iovcnt()-1 downwards *)
+  | OXBO n slack rf2 =>
+      if m_own m then
+        if n =? 0 then Some (set_all m st iv [], mkObs 0 None [])
+        else
+          let nn := zlen v in
+          let cap2 := rf2 + nn + slack in
+          match do_extract_back (cb_view_back nn) v n [] with
+          | XOob => None
+          | XNeg v' a => if (cap2 <? rf2 + nn) && (0 <? zlen a) then None
+                         else Some (set_all m st (upd_back iv v') (nulls nn), mkObs (-1) None [])
+          | XDone v' rem a => if (cap2 <? rf2 + nn) && (0 <? zlen a) then None
+                              else Some (set_all m st (upd_back iv v') a, mkObs (n - rem) None [])
+          end
+      else ret_only m NA
   end.
 
 (* run a whole operation list; observations in order *)
